@@ -330,10 +330,12 @@ class Director:
         hcs = [0] * len(sels)
         if p["handicaps"] == "lines":
             # handicap market: the same selection id appears on several lines (which settle independently)
+            # (the level line 0.0 appears in first, middle and last position)
             base = sels[: max(1, len(sels) // 2)]
-            sels = [s_ for s_ in base for _ in (0, 1)]
-            hcs = [h for _ in base for h in (-0.5, 0.5)]
-            afs = (afs + afs)[: len(sels)] if afs[0] is not None else [None] * len(sels)
+            lines = rng.choice(((-0.5, 0.5), (-1.0, 0.0, 1.0), (0.5, 0.0), (0.0, -1.5), (-0.5, 0.5)))
+            sels = [s_ for s_ in base for _ in lines]
+            hcs = [h for _ in base for h in lines]
+            afs = (afs * len(lines))[: len(sels)] if afs[0] is not None else [None] * len(sels)
         elif p["handicaps"]:
             hcs = [rng.choice((0, -1.5, 2.0)) for _ in sels]
         self.mf = MarketFile(
@@ -480,6 +482,15 @@ class Director:
         )
         for _ in range(repeat):
             self.mf.emit(self.step_time(), force_md=True)
+
+    def reopen_after_close(self, ticks=(1, 4)):
+        """a CLOSED market comes back: new image with the settled runners ACTIVE again (removed ones stay removed)"""
+        mf = self.mf
+        st = {k: {"status": "ACTIVE"} for k in mf.keys if mf._runner_md(k)["status"] in ("WINNER", "LOSER", "PLACED")}
+        rc = {k: self.book_for(k) for k in st}
+        mf.emit(self.step_time(), md_changes={"status": "OPEN", "version": mf.md["version"] + 1}, runner_md=st, rc=rc, img=True)
+        for _ in range(self.rng.randint(*ticks)):
+            self.open_tick()
 
     # ---- whole history ----
     def run(self):
